@@ -174,6 +174,9 @@ def check(ctx: Ctx) -> None:
                                           'binary2gray/gray2binary index: nearest neighbours then differ in more than one bit '
                                           '(e.g. PSK(8) label distances [1,2,1,3,1,2,1,3])' % norm(n.args[0])[:70],
                                           fn.path, n.lineno, operand='natural-order')
+    # cheap definite rules first: a later cannot-tell must not hide them
+    from ..idioms import check_no_memory_order_flatten
+    check_no_memory_order_flatten(ctx, 'C15.e', [CONV, MISC, FUND], floor=60)
     _check_gray2binary(ctx)
     _check_shapes(ctx)
     from ..idioms import check_input_immutability, public_api
